@@ -104,6 +104,12 @@ theorem unshuffle_preserves_valid {labels index : List Nat} {n : Nat} {sorted : 
   have hk : ValidK labels (nLabels labels) sorted := ⟨hv.2.1, hv.2.2⟩
   exact validClustering_of_validK (hperm.length_eq.trans hv.1) (hk.of_perm hperm.symm)
 
+/-- ★ the un-shuffle inverts the shuffle `adjacency[index][:, index]` (position `j` stands for node `index[j]`):
+    labels given to the shuffled positions come back to their original nodes -/
+theorem unshuffle_inverts_shuffle {L index : List Nat} (hp : index.Perm (List.range L.length)) :
+    unshuffle (index.map fun v => L.getD v 0) index = .ok L :=
+  unshuffle_shuffle hp
+
 example : unshuffle [0, 0, 1, 2] [2, 0, 3, 1] = .ok [0, 2, 0, 1] := by decide
 example : ([2, 0, 3, 1] : List Nat).Perm (List.range 4) := by decide
 
